@@ -45,6 +45,27 @@ theorem LogExt.emit {good : Ev → Prop} {s : State} {ev : Ev} (h : good ev) : L
 /-- events that are neither `unjust` nor `ran` -/
 def QuietEv (ev : Ev) : Prop := (∀ i, ev ≠ .unjust i) ∧ (∀ i, ev ≠ .ran i)
 
+def WokeEv (ev : Ev) : Prop := ∃ i, ev = .woke i
+def ChgEv (ev : Ev) : Prop := (∃ i, ev = .woke i) ∨ ∃ i, ev = .changed i
+/-- events that are neither a tracked read nor a signal write -/
+def PlainEv (ev : Ev) : Prop := (∀ a b c, ev ≠ .rdv a b c) ∧ ∀ i, ev ≠ .set i
+
+theorem WokeEv.quiet {ev : Ev} (h : WokeEv ev) : QuietEv ev := by
+  obtain ⟨i, rfl⟩ := h
+  exact ⟨fun _ h => (by cases h), fun _ h => (by cases h)⟩
+theorem WokeEv.plain {ev : Ev} (h : WokeEv ev) : PlainEv ev := by
+  obtain ⟨i, rfl⟩ := h
+  exact ⟨fun _ _ _ h => (by cases h), fun _ h => (by cases h)⟩
+theorem WokeEv.chg {ev : Ev} (h : WokeEv ev) : ChgEv ev := .inl h
+theorem ChgEv.quiet {ev : Ev} (h : ChgEv ev) : QuietEv ev := by
+  rcases h with ⟨i, rfl⟩ | ⟨i, rfl⟩
+  · exact ⟨fun _ h => (by cases h), fun _ h => (by cases h)⟩
+  · exact ⟨fun _ h => (by cases h), fun _ h => (by cases h)⟩
+theorem ChgEv.plain {ev : Ev} (h : ChgEv ev) : PlainEv ev := by
+  rcases h with ⟨i, rfl⟩ | ⟨i, rfl⟩
+  · exact ⟨fun _ _ _ h => (by cases h), fun _ h => (by cases h)⟩
+  · exact ⟨fun _ _ _ h => (by cases h), fun _ h => (by cases h)⟩
+
 /-- every `ran i` event is the run of a memo (kinds taken in `s`) -/
 def MemoEv (s : State) (ev : Ev) : Prop := ∀ i, ev = .ran i → (s.get i).kind = .memo
 
@@ -485,27 +506,6 @@ carries `scratch` of `x` for the environment current at that position. -/
 def MemoTracked (p : Prog) : Prop :=
   ∀ (m : Nat) (b : Expr), p[m]? = some (NodeDef.memo b) → b.noUntracked = true
 
-def WokeEv (ev : Ev) : Prop := ∃ i, ev = .woke i
-def ChgEv (ev : Ev) : Prop := (∃ i, ev = .woke i) ∨ ∃ i, ev = .changed i
-/-- events that are neither a tracked read nor a signal write -/
-def PlainEv (ev : Ev) : Prop := (∀ a b c, ev ≠ .rdv a b c) ∧ ∀ i, ev ≠ .set i
-
-theorem WokeEv.quiet {ev : Ev} (h : WokeEv ev) : QuietEv ev := by
-  obtain ⟨i, rfl⟩ := h
-  exact ⟨fun _ h => by cases h, fun _ h => by cases h⟩
-theorem WokeEv.plain {ev : Ev} (h : WokeEv ev) : PlainEv ev := by
-  obtain ⟨i, rfl⟩ := h
-  exact ⟨fun _ _ _ h => by cases h, fun _ h => by cases h⟩
-theorem WokeEv.chg {ev : Ev} (h : WokeEv ev) : ChgEv ev := .inl h
-theorem ChgEv.quiet {ev : Ev} (h : ChgEv ev) : QuietEv ev := by
-  rcases h with ⟨i, rfl⟩ | ⟨i, rfl⟩
-  · exact ⟨fun _ h => by cases h, fun _ h => by cases h⟩
-  · exact ⟨fun _ h => by cases h, fun _ h => by cases h⟩
-theorem ChgEv.plain {ev : Ev} (h : ChgEv ev) : PlainEv ev := by
-  rcases h with ⟨i, rfl⟩ | ⟨i, rfl⟩
-  · exact ⟨fun _ _ _ h => by cases h, fun _ h => by cases h⟩
-  · exact ⟨fun _ _ _ h => by cases h, fun _ h => by cases h⟩
-
 /-- the two environments agree on every signal of `p` -/
 def SigEq (p : Prog) (env env' : Nat → Int) : Prop := ∀ i v, p[i]? = some (.sig v) → env i = env' i
 
@@ -578,7 +578,7 @@ def StateGF (p : Prog) (s s' : State) : Prop :=
   ∃ suf, s'.log = s.log ++ suf ∧ GlitchFree p (envOf s) suf (envOf s')
 
 theorem StateGF.refl (p : Prog) (s : State) : StateGF p s s :=
-  ⟨[], by simp, .nil (SigEq.refl ..)⟩
+  ⟨[], by simp, .nil (SigEq.refl _ _)⟩
 
 theorem StateGF.trans {p : Prog} {s s' s'' : State} (h1 : StateGF p s s') (h2 : StateGF p s' s'') :
     StateGF p s s'' := by
@@ -599,7 +599,7 @@ theorem StateGF.of_eq {p : Prog} {s s' : State} (hl : s'.log = s.log)
 theorem StateGF.rdv {p : Prog} {s : State} (h : InvR p s) (hwf : WF p = true) (htr : MemoTracked p)
     {x : Nat} (hx : x < p.length) (hk : (s.get x).kind ≠ .eff) (hst : (s.get x).st = .clean)
     {v : Int} (hv : (s.get x).val = some v) (self : Nat) : StateGF p s (s.emit (.rdv self x v)) := by
-  refine ⟨[.rdv self x v], rfl, .rdv ?_ (.nil (SigEq.refl ..))⟩
+  refine ⟨[.rdv self x v], rfl, .rdv ?_ (.nil (SigEq.refl _ _))⟩
   have := h.clean_correct hwf htr x hx hk hst
   rw [hv] at this
   exact (Option.some.inj this).symm
